@@ -479,3 +479,319 @@ Example breakout_partial_nontrivial_head :
   bc_safe p = true /\
   breakout_common_code_model p = [SAssign 0 (RVal (VBool true)); SIf (Unknown 1 [1]) [SEv 2 [0]] [SEv 3 [0]]].
 Proof. split; vm_compute; reflexivity. Qed.
+
+(* ------------------------------------------------------------------------------------------ *)
+(* move_before_loop *)
+Definition absorbs (x : var) (v : val) (st : state) : Prop := set_var x v st = st.
+
+Lemma absorbs_set x v st : absorbs x v (set_var x v st).
+Proof. unfold absorbs, set_var. simpl. rewrite upd_upd_same. reflexivity. Qed.
+
+Lemma set_var_comm x v z w st : x <> z -> set_var x v (set_var z w st) = set_var z w (set_var x v st).
+Proof. intros H. unfold set_var. simpl. rewrite (upd_comm _ z x w v) by congruence. reflexivity. Qed.
+
+Lemma absorbs_other x v z w st : x <> z -> absorbs x v st -> absorbs x v (set_var z w st).
+Proof. unfold absorbs. intros H Ha. rewrite set_var_comm by assumption. rewrite Ha. reflexivity. Qed.
+
+Lemma mem_false_neq x z : mem x [z] = false -> x <> z.
+Proof. unfold mem. simpl. rewrite orb_false_r. intros H ->. rewrite Nat.eqb_refl in H. discriminate. Qed.
+
+Lemma eval_test_env o st t : s_env (snd (eval_test o st t)) = s_env st.
+Proof.
+  induction t as [b|i rd|u IH]; simpl; auto.
+  destruct (eval_test o st u); simpl in *; auto.
+Qed.
+Lemma eval_rexpr_env o st e : s_env (snd (eval_rexpr o st e)) = s_env st.
+Proof. destruct e; simpl; auto. apply eval_test_env. Qed.
+
+Lemma absorbs_env x v st st' : s_env st' = s_env st -> absorbs x v st -> upd (s_env st') x v = s_env st'.
+Proof. unfold absorbs. intros E H. rewrite E. apply (f_equal s_env) in H. simpl in H. exact H. Qed.
+
+Lemma absorbs_of_env x v st : upd (s_env st) x v = s_env st -> absorbs x v st.
+Proof. unfold absorbs, set_var. intros ->. destruct st; reflexivity. Qed.
+
+Lemma absorbs_same_env x v st st' : s_env st' = s_env st -> absorbs x v st -> absorbs x v st'.
+Proof. intros E H. apply absorbs_of_env. eapply absorbs_env; eauto. Qed.
+
+(* evaluation when x is not read *)
+Lemma eval_rexpr_set_var o st x v e :
+  mem x (rexpr_reads e) = false ->
+  eval_rexpr o (set_var x v st) e = (fst (eval_rexpr o st e), set_var x v (snd (eval_rexpr o st e))).
+Proof.
+  destruct e as [w|y|t]; simpl; intros H.
+  - reflexivity.
+  - rewrite get_upd_other; [reflexivity|]. apply mem_false_neq in H. congruence.
+  - apply eval_test_set_var. exact H.
+Qed.
+
+(* straight-line code *)
+Definition flat (c : list stmt) : Prop := forallb is_simple_stmt c = true.
+
+(* (F2) code that does not assign x preserves "x = v is absorbed" *)
+Lemma flat_absorbs o x v : forall c st out st',
+  flat c -> writes_in x c = false -> absorbs x v st -> runs o st c (out, st') -> absorbs x v st'.
+Proof.
+  induction c as [|s c IH]; intros st out st' Hf Hw Ha Hr.
+  - apply runs_nil in Hr. inversion Hr; subst. exact Ha.
+  - unfold flat in Hf. simpl in Hf, Hw. apply andb_true_iff in Hf. destruct Hf as [Hs Hf].
+    apply orb_false_iff in Hw. destruct Hw as [Hws Hw].
+    apply runs_cons in Hr. destruct Hr as [[out1 st1] [H1 H2]].
+    assert (Ha1 : absorbs x v st1).
+    { destruct s; simpl in H1; try discriminate; try (inversion H1; subst; exact Ha).
+      - inversion H1; subst. eapply absorbs_same_env; [|exact Ha]. reflexivity.
+      - inversion H1; subst. simpl in Hws. apply absorbs_other; [apply mem_false_neq; exact Hws|].
+        eapply absorbs_same_env; [apply eval_rexpr_env|exact Ha].
+      - inversion H1; subst. eapply absorbs_same_env; [apply eval_rexpr_env|exact Ha]. }
+    destruct out1; simpl in H2; try (inversion H2; subst; exact Ha1).
+    eapply IH; eauto.
+Qed.
+
+(* (F1) jump-free code in which x does not occur always completes and commutes with x := v *)
+Lemma flat_commute o x v : forall c st,
+  flat c -> existsb is_jump c = false -> occurs x c = false ->
+  (forall r, runs o st c r -> exists st1, r = (Normal, st1) /\ runs o (set_var x v st) c (Normal, set_var x v st1)) /\
+  (forall r, runs o (set_var x v st) c r -> exists st1, r = (Normal, set_var x v st1) /\ runs o st c (Normal, st1)).
+Proof.
+  induction c as [|s c IH]; intros st Hf Hj Ho.
+  - split; intros r Hr; apply runs_nil in Hr; subst; eexists; (split; [reflexivity|apply runs_nil; reflexivity]).
+  - unfold flat in Hf. simpl in Hf, Hj, Ho. apply andb_true_iff in Hf. destruct Hf as [Hs Hf].
+    apply orb_false_iff in Hj. destruct Hj as [Hjs Hj]. apply orb_false_iff in Ho. destruct Ho as [Hos Ho].
+    apply orb_false_iff in Hos. destruct Hos as [Hrd Hwr].
+    (* one simple, non-jump statement *)
+    assert (Hstep : exists st1 : state,
+               runs1 o st s (Normal, st1) /\ runs1 o (set_var x v st) s (Normal, set_var x v st1)).
+    { destruct s; simpl in Hs, Hjs; try discriminate.
+      - exists st. simpl. auto.
+      - exists (emit (EvCall i (map (get (s_env st)) rd)) st). simpl. split; [reflexivity|].
+        f_equal. unfold emit, set_var. simpl. f_equal. f_equal. f_equal. symmetry.
+        apply map_ext_in. intros a Ha. apply get_upd_other. intros ->. simpl in Hrd.
+        assert (mem x rd = true) by (apply existsb_exists; exists x; split; [exact Ha|apply Nat.eqb_refl]).
+        congruence.
+      - simpl in Hrd, Hwr. eexists. simpl. split; [reflexivity|].
+        rewrite (eval_rexpr_set_var o st x v e Hrd). simpl. f_equal.
+        apply set_var_comm. apply not_eq_sym, mem_false_neq. unfold mem in *. simpl in *.
+        rewrite Nat.eqb_sym. exact Hwr. }
+    destruct Hstep as [st1 [Hs1 Hs2]].
+    destruct (IH st1 Hf Hj Ho) as [IH1 IH2].
+    split; intros r Hr; apply runs_cons in Hr; destruct Hr as [r1 [H1 H2]].
+    + assert (r1 = (Normal, st1)) by (eapply runs_det; apply runs_single; eassumption). subst r1.
+      simpl in H2. destruct (IH1 _ H2) as [st2 [-> Hr2]]. exists st2. split; [reflexivity|].
+      apply runs_cons. eexists; split; [exact Hs2|exact Hr2].
+    + assert (r1 = (Normal, set_var x v st1)) by (eapply runs_det; apply runs_single; eassumption). subst r1.
+      simpl in H2. destruct (IH2 _ H2) as [st2 [-> Hr2]]. exists st2. split; [reflexivity|].
+      apply runs_cons. eexists; split; [exact Hs1|exact Hr2].
+Qed.
+
+Lemma occurs_writes x c : occurs x c = false -> writes_in x c = false.
+Proof.
+  unfold occurs, writes_in. induction c as [|s c IH]; simpl; auto.
+  intros H. apply orb_false_iff in H. destruct H as [H1 H2]. apply orb_false_iff in H1. destruct H1 as [_ H1].
+  rewrite H1. simpl. auto.
+Qed.
+
+Section Hoist.
+  Variables (o : oracle) (x : var) (v : val) (before after : list stmt).
+  Hypothesis Hfb : flat before.
+  Hypothesis Hfa : flat after.
+  Hypothesis Hjb : existsb is_jump before = false.
+  Hypothesis Hob : occurs x before = false.
+  Hypothesis Hwa : writes_in x after = false.
+  Let B := before ++ SAssign x (RVal v) :: after.
+  Let B' := before ++ after.
+
+  (* (F3) once x = v is absorbed the assignment is a no-op *)
+  Lemma body_absorbed st r : absorbs x v st -> (runs o st B r <-> runs o st B' r).
+  Proof.
+    intros Ha. unfold B, B'. rewrite !runs_app.
+    split; intros [[out1 st1] [H1 H2]]; exists (out1, st1); (split; [exact H1|]);
+      destruct out1; simpl in *; auto.
+    - apply runs_assign in H2. simpl in H2.
+      assert (Ha1 : absorbs x v st1) by (exact (flat_absorbs o x v before st Normal st1 Hfb (occurs_writes _ _ Hob) Ha H1)).
+      unfold absorbs in Ha1. rewrite Ha1 in H2. exact H2.
+    - apply runs_assign. simpl.
+      assert (Ha1 : absorbs x v st1) by (exact (flat_absorbs o x v before st Normal st1 Hfb (occurs_writes _ _ Hob) Ha H1)).
+      unfold absorbs in Ha1. rewrite Ha1. exact H2.
+  Qed.
+
+  Lemma body_keeps st out st' : absorbs x v st -> runs o st B' (out, st') -> absorbs x v st'.
+  Proof.
+    intros Ha Hr. unfold B' in Hr. apply runs_app in Hr. destruct Hr as [[out1 st1] [H1 H2]].
+    assert (Ha1 : absorbs x v st1) by (exact (flat_absorbs o x v before st out1 st1 Hfb (occurs_writes _ _ Hob) Ha H1)).
+    destruct out1; simpl in H2; try (inversion H2; subst; exact Ha1).
+    exact (flat_absorbs o x v after st1 out st' Hfa Hwa Ha1 H2).
+  Qed.
+
+  (* (F4) the first iteration *)
+  Lemma body_first st r : runs o st B r <-> runs o (set_var x v st) B' r.
+  Proof.
+    unfold B, B'. rewrite !runs_app. destruct (flat_commute o x v before st Hfb Hjb Hob) as [C1 C2]. split.
+    - intros [r1 [H1 H2]]. destruct (C1 _ H1) as [st1 [-> Hc]]. simpl in H2. apply runs_assign in H2. simpl in H2.
+      eexists; split; [exact Hc|exact H2].
+    - intros [r1 [H1 H2]]. destruct (C2 _ H1) as [st1 [-> Hc]]. simpl in H2.
+      eexists; split; [exact Hc|]. simpl. apply runs_assign. exact H2.
+  Qed.
+
+  Lemma body_first_keeps st out st' : runs o (set_var x v st) B' (out, st') -> absorbs x v st'.
+  Proof. apply body_keeps. apply absorbs_set. Qed.
+
+  Lemma loop_next_env st lk : s_env (snd (fst (loop_next o st lk))) = s_env st.
+  Proof.
+    destruct lk as [t|[|n]|i]; simpl; auto.
+    pose proof (eval_test_env o st t). destruct (eval_test o st t); simpl in *; auto.
+  Qed.
+
+  Lemma loop_absorbed e : forall st lk r,
+    lruns o st lk B e r -> absorbs x v st -> lruns o st lk B' e r.
+  Proof.
+    apply (lruns_ind' o B e (fun st lk r => absorbs x v st -> lruns o st lk B' e r)).
+    intros st lk r Hstep Ha. apply lruns_unfold.
+    pose proof (loop_next_env st lk) as Henv.
+    destruct (loop_next o st lk) as [[go st1] lk']. simpl in Henv.
+    assert (Ha1 : absorbs x v st1) by (eapply absorbs_same_env; eauto).
+    destruct go; [|exact Hstep].
+    destruct Hstep as [[out1 st2] [H1 H2]]. apply (body_absorbed _ _ Ha1) in H1.
+    exists (out1, st2). split; [exact H1|].
+    pose proof (body_keeps _ _ _ Ha1 H1) as Ha2.
+    destruct out1; simpl in *; tauto.
+  Qed.
+
+  Lemma loop_absorbed_rev e : forall st lk r,
+    lruns o st lk B' e r -> absorbs x v st -> lruns o st lk B e r.
+  Proof.
+    apply (lruns_ind' o B' e (fun st lk r => absorbs x v st -> lruns o st lk B e r)).
+    intros st lk r Hstep Ha. apply lruns_unfold.
+    pose proof (loop_next_env st lk) as Henv.
+    destruct (loop_next o st lk) as [[go st1] lk']. simpl in Henv.
+    assert (Ha1 : absorbs x v st1) by (eapply absorbs_same_env; eauto).
+    destruct go; [|exact Hstep].
+    destruct Hstep as [[out1 st2] [H1 H2]].
+    pose proof (body_keeps _ _ _ Ha1 H1) as Ha2.
+    apply (body_absorbed _ _ Ha1) in H1.
+    exists (out1, st2). split; [exact H1|].
+    destruct out1; simpl in *; tauto.
+  Qed.
+End Hoist.
+
+Lemma hoist_loop o0 x v before after h e :
+  flat before -> flat after -> existsb is_jump before = false -> occurs x before = false ->
+  writes_in x after = false -> mem x (head_reads h) = false -> runs_once h = true ->
+  forall st r,
+    runs o0 st [SLoop h (before ++ SAssign x (RVal v) :: after) e] r <->
+    runs o0 st [SAssign x (RVal v); SLoop h (before ++ after) e] r.
+Proof.
+  intros Hfb Hfa Hjb Hob Hwa Hh Ho st r.
+  rewrite runs_assign. simpl eval_rexpr. simpl fst. simpl snd. rewrite !runs_single. simpl runs1.
+  set (B := before ++ SAssign x (RVal v) :: after). set (B' := before ++ after).
+  set (st' := set_var x v st).
+  assert (Hloop : forall lk lk',
+             (forall s0, loop_next o0 s0 lk = (true, s0, lk')) ->
+             (lruns o0 st lk B e r <-> lruns o0 st' lk B' e r)).
+  { intros lk lk' Hn. rewrite !lruns_unfold, !Hn. split.
+    - intros [[out1 st2] [H1 H2]]. apply (body_first o0 x v before after Hfb Hjb Hob) in H1.
+      pose proof (body_first_keeps o0 x v before after Hfb Hfa Hob Hwa _ _ _ H1) as Ha2.
+      exists (out1, st2). split; [exact H1|].
+      destruct out1; simpl in *; auto; eapply loop_absorbed; eauto.
+    - intros [[out1 st2] [H1 H2]].
+      pose proof (body_first_keeps o0 x v before after Hfb Hfa Hob Hwa _ _ _ H1) as Ha2.
+      apply (body_first o0 x v before after Hfb Hjb Hob) in H1.
+      exists (out1, st2). split; [exact H1|].
+      destruct out1; simpl in *; auto; eapply loop_absorbed_rev; eauto. }
+  destruct h as [t|[[|n]|i rd]]; simpl in Ho; try discriminate.
+  - destruct (tval t) as [[|]|] eqn:Et; try discriminate. simpl.
+    apply (Hloop (LWhile t) (LWhile t)). intros s0. simpl. rewrite (tval_sound _ _ o0 s0 Et). reflexivity.
+  - simpl. apply (Hloop (LCount (S n)) (LCount n)). intros s0. reflexivity.
+Qed.
+
+Lemma hoist_one_spec h : forall l acc s body',
+  hoist_one h acc l = Some (s, body') ->
+  exists before after, l = before ++ s :: after /\ body' = acc ++ before ++ after /\
+                       hoistable h (acc ++ before) s after = true.
+Proof.
+  induction l as [|a l IH]; intros acc s body' H; [discriminate|].
+  simpl in H. destruct (hoistable h acc a l) eqn:E.
+  - inversion H; subst. exists [], l. rewrite app_nil_r. auto.
+  - destruct (IH _ _ _ H) as (before & after & -> & -> & Hh).
+    exists (a :: before), after. rewrite <- !app_assoc in *. simpl in *. auto.
+Qed.
+
+Lemma flat_app a b : flat (a ++ b) <-> flat a /\ flat b.
+Proof. unfold flat. rewrite forallb_app, andb_true_iff. tauto. Qed.
+
+Lemma hoist_all_sound e n : forall h body pre b',
+  flat body -> hoist_all n h body = (pre, b') -> hoist_all_safe n h body = true ->
+  equiv [SLoop h body e] (pre ++ [SLoop h b' e]) /\ flat b'.
+Proof.
+  induction n as [|n IH]; intros h body pre b' Hf Hh Hs; simpl in Hh, Hs.
+  - inversion Hh; subst. split; [apply equiv_refl|exact Hf].
+  - destruct (hoist_one h [] body) as [[s body']|] eqn:E1.
+    + destruct (hoist_all n h body') as [pre' b''] eqn:E2. inversion Hh; subst.
+      apply andb_true_iff in Hs. destruct Hs as [Hs Hs3]. apply andb_true_iff in Hs. destruct Hs as [Hro Hs2].
+      destruct (hoist_one_spec _ _ _ _ _ E1) as (before & after & -> & -> & Hh1). simpl in *.
+      destruct s; try discriminate. destruct e0; try discriminate.
+      apply negb_true_iff in Hs2.
+      unfold hoistable in Hh1. repeat (apply andb_true_iff in Hh1; destruct Hh1 as [Hh1 ?]).
+      repeat match goal with H : negb _ = true |- _ => apply negb_true_iff in H end.
+      apply flat_app in Hf. destruct Hf as [Hfb Hfa]. unfold flat in Hfa. simpl in Hfa.
+      assert (Hf' : flat (before ++ after)) by (apply flat_app; split; assumption).
+      unfold writes_in in Hs2. rewrite existsb_app in Hs2. apply orb_false_iff in Hs2. destruct Hs2 as [_ Hwa].
+      destruct (IH _ _ _ _ Hf' E2 Hs3) as [IHe IHf]. split; [|exact IHf].
+      eapply equiv_trans.
+      * intros o st r. apply hoist_loop; eauto.
+      * apply equiv_cons. exact IHe.
+    + inversion Hh; subst. split; [apply equiv_refl|exact Hf].
+Qed.
+
+Lemma flat_map_equiv_in (F : stmt -> list stmt) p :
+  (forall s, In s p -> equiv [s] (F s)) -> equiv p (flat_map F p).
+Proof.
+  induction p as [|s p IH]; intros H; simpl; [apply equiv_refl|].
+  apply (equiv_app [s] (F s) p (flat_map F p)); [apply H; left; reflexivity|].
+  apply IH. intros; apply H; right; assumption.
+Qed.
+
+Lemma mbl_sound n : forall p, mbl_safe n p = true -> equiv p (mbl n p).
+Proof.
+  induction n as [|n IH]; intros p Hs; simpl; [apply equiv_refl|].
+  simpl in Hs. rewrite forallb_forall in Hs.
+  apply flat_map_equiv_in. intros s Hin. specialize (Hs s Hin).
+  destruct s; try apply equiv_refl.
+  - apply andb_true_iff in Hs. destruct Hs. apply equiv_if; apply IH; assumption.
+  - destruct (forallb is_simple_stmt body) eqn:Ef; [|apply equiv_refl].
+    apply andb_true_iff in Hs. destruct Hs as [Hs1 Hs2].
+    destruct (hoist_all (length body) h body) as [pre b'] eqn:Eh.
+    destruct (hoist_all_sound orelse _ _ _ _ _ Ef Eh Hs1) as [He _].
+    eapply equiv_trans; [exact He|].
+    apply equiv_app; [apply equiv_refl|].
+    apply equiv_loop; [apply equiv_sym, fixb_equiv|apply IH; exact Hs2].
+Qed.
+
+Theorem move_before_loop_partial p :
+  mbl_safe (fuel_of p) p = true -> equiv p (move_before_loop_model p).
+Proof. apply mbl_sound. Qed.
+
+(* refutations: a loop that runs zero times; a variable assigned again later in the body *)
+Definition mbl_witness_zero : list stmt :=
+  [SLoop (HWhile (Unknown 1 [])) [SAssign 0 (RVal (VObj true 0))] []; SEv 3 [0]].
+Theorem move_before_loop_refuted : exists p, ~ obs_equiv p (move_before_loop_model p).
+Proof.
+  exists mbl_witness_zero.
+  refute_with (fun _ : nat => VBool false) st0 mbl_witness_zero (move_before_loop_model mbl_witness_zero).
+Qed.
+
+Definition mbl_witness_reassigned : list stmt :=
+  [SLoop (HFor (IKnown 2)) [SAssign 0 (RVal (VObj true 0)); SEv 1 [0]; SAssign 0 (RVal (VObj true 1))] []].
+Theorem move_before_loop_refuted_reassigned :
+  exists p h b e, p = [SLoop h b e] /\ runs_once h = true /\ ~ obs_equiv p (move_before_loop_model p).
+Proof.
+  exists mbl_witness_reassigned, (HFor (IKnown 2)),
+         [SAssign 0 (RVal (VObj true 0)); SEv 1 [0]; SAssign 0 (RVal (VObj true 1))], [].
+  split; [reflexivity|]. split; [reflexivity|].
+  refute_with (fun _ : nat => VBool false) st0 mbl_witness_reassigned (move_before_loop_model mbl_witness_reassigned).
+Qed.
+
+Example move_before_loop_partial_nontrivial :
+  let p := [SLoop (HFor (IKnown 3)) [SEv 1 [1]; SAssign 0 (RVal (VObj true 0)); SEv 2 [0]] []; SEv 3 [0]] in
+  mbl_safe (fuel_of p) p = true /\
+  move_before_loop_model p =
+    [SAssign 0 (RVal (VObj true 0)); SLoop (HFor (IKnown 3)) [SEv 1 [1]; SEv 2 [0]] []; SEv 3 [0]].
+Proof. split; vm_compute; reflexivity. Qed.
